@@ -1,5 +1,10 @@
 // ---- shim/serde.rs : the two serde traits as signatures only (A-ext) ----
 verus! {
-pub trait Serializer: Sized { type Ok; type Error; fn serialize_str(self, v: &str) -> Result<Self::Ok, Self::Error>; }
+pub trait Serializer: Sized {
+    type Ok; type Error;
+    /// what a serializer makes of a string: an uninterpreted function of the serializer and the text
+    spec fn ser_of(self, s: Seq<char>) -> Result<Self::Ok, Self::Error>;
+    fn serialize_str(self, v: &str) -> (r: Result<Self::Ok, Self::Error>) ensures r == self.ser_of(v@);
+}
 pub trait Serialize { fn serialize<S: Serializer>(&self, serializer: S) -> Result<S::Ok, S::Error>; }
 } // verus!
